@@ -46,9 +46,9 @@ ATTACH = {
 
 # crate -> (lib.rs, [model modules])
 CRATES = {
-    "core": ("core/src/lib.rs", ["vk", "verif_env", "verif_map", "verif_dec"]),
+    "core": ("core/src/lib.rs", ["vk", "verif_env", "verif_bump", "verif_map", "verif_dec"]),
     "cli": ("cli/src/lib.rs", ["vk", "verif_env", "verif_map"]),
-    "golden": ("golden/src/lib.rs", ["vk", "verif_env"]),
+    "golden": ("golden/src/lib.rs", ["vk", "verif_env", "verif_map"]),
 }
 
 # HashMap swap: file -> list of (regex on the import text, replacement). The replacement keeps
@@ -124,7 +124,7 @@ def make_overlay(mode, crates=("core", "cli", "golden"), map_swap=True):
                 libtext = f.read()
             with open(lp, "w") as f:
                 # nested kani attribute macros (15 stubs per harness) exceed the default expansion depth
-                f.write('#![cfg_attr(kani, recursion_limit = "1024")]\n' + libtext)
+                f.write('#![cfg_attr(kani, recursion_limit = "1024")]\n#![cfg_attr(kani, feature(pattern))]\n' + libtext)
             with open(lp, "a") as f:
                 f.write("\n")
                 for m in mods:
